@@ -32,6 +32,7 @@ the phase shell's cwd is a scratch directory and the daemon's stdin is /dev/null
 from __future__ import annotations
 
 import os
+import time
 import types
 
 from hypothesis import strategies as st
@@ -338,7 +339,7 @@ def check_env(ctx, dm: Daemon, case, record=True):
 
     def symptom(kind, detail):
         """the transfer as a whole failed: attribute to the riskiest value (root cause class)"""
-        viol(f"{kind}:{culprit}", f"[{transport}] {detail}; daemon stderr: {dm.stderr_tail()!r}")
+        viol(f"quoting:{culprit}", f"[{transport}] {kind}: {detail}; daemon stderr: {dm.stderr_tail()!r}")
 
     if transport == "depend":
         return _check_depend(ctx, dm, case, env, names, out, viol, symptom, reported)
@@ -382,7 +383,7 @@ def check_env(ctx, dm: Daemon, case, record=True):
         actual = len(payload.encode("utf8"))
         if announced != actual:
             count_ok = False
-            viol("inline:count-is-not-bytes" + (":nonascii" if not payload.isascii() else ""),
+            viol("byte-count:inline" + (":nonascii" if not payload.isascii() else ""),
                  f"announced {announced} but sent {actual} payload bytes ({len(payload)} characters); "
                  f"send_env -> {ok!r}{' (then no reply)' if hang else ''}")
     if not count_ok:
@@ -481,13 +482,13 @@ def compare(case, obs, child, viol, transport):
             if "a" not in flags:
                 viol(f"seq-not-array:{rc}", f"[{transport}] {name}: flags {flags!r}, expected an indexed array")
             if pairs != want:
-                viol(f"value:{rc}", f"[{transport}] {name}: sent {v!r}, daemon has {pairs!r}")
+                viol(f"quoting:{rc}", f"[{transport}] value: {name}: sent {v!r}, daemon has {pairs!r}")
         else:
             want = [("0", v.encode("utf8"))]
             if "a" in flags or "A" in flags:
                 viol(f"scalar-is-array:{rc}", f"[{transport}] {name}: flags {flags!r}")
             if pairs != want:
-                viol(f"value:{rc}", f"[{transport}] {name}: sent {v!r} ({v.encode('utf8')!r}), daemon has "
+                viol(f"quoting:{rc}", f"[{transport}] value: {name}: sent {v!r} ({v.encode('utf8')!r}), daemon has "
                                     f"{[p[1] for p in pairs]!r}")
         if ("x" in flags) != bool(exported):
             viol("export-flag:" + ("lost" if exported else "leaked"),
@@ -555,7 +556,7 @@ def _check_depend(ctx, dm, case, env, names, out, viol, symptom, reported):
     actual = len(payload.encode("utf8"))
     if announced != actual:
         count_ok = False
-        viol("depend:count-is-not-bytes" + (":nonascii" if not payload.isascii() else ""),
+        viol("byte-count:depend" + (":nonascii" if not payload.isascii() else ""),
              f"announced {announced} but sent {actual} payload bytes; outcome {res!r}{' (no reply)' if hang else ''}")
     if not count_ok:
         dm.kill()
@@ -610,8 +611,13 @@ def run_task(ctx, task, **kw):
     if task != "hyp":
         raise core.HarnessError(f"unknown task {task}")
     dm = Daemon(ctx)
+
+    def one(c):
+        if not ctx.out_of_time():  # wall-clock guard also inside a chunk (cases can take seconds on a loaded machine)
+            check_env(ctx, dm, c)
+
     try:
-        core.hyp_run(ctx, env_case(tuple(kw["transports"])), lambda c: check_env(ctx, dm, c), kw["examples"], chunk=20)
+        core.hyp_run(ctx, env_case(tuple(kw["transports"])), one, kw["examples"], chunk=20)
         ctx.count("daemons_spawned", dm.spawned)
     finally:
         dm.kill()
@@ -645,9 +651,10 @@ def shrink_case(ctx, bucket, case):
                 break
         else:
             return None
-        budget = 120
+        budget = 60
+        t_end = time.time() + 60
         changed = True
-        while changed and budget > 0:
+        while changed and budget > 0 and time.time() < t_end:
             changed = False
             name, v, exp = best["items"][0]
             cands = []
